@@ -163,7 +163,7 @@ func runC01(c *eng.Ctx) {
 		}
 		rng := cr.rng(idx)
 		full := k%5 == 4 // every fifth spec uses the full profile (features behind open findings)
-		s, m := GenSpec(rng, GenOpts{Want: ClsOK, Specials: true, Values: true, MultiAlias: full, OutGroup: full, MultiOpt: false})
+		s, m := GenSpec(rng, GenOpts{Want: ClsOK, Specials: true, Values: true, MultiAlias: full || k%3 == 1, OutGroup: full, MultiOpt: full, Removes: k%3 == 1})
 		if s == nil {
 			continue
 		}
@@ -303,7 +303,7 @@ func runC03(c *eng.Ctx) {
 		}
 		rng := cr.rng(idx)
 		lifes := []godi.Lifetime{godi.Transient, godi.Transient, godi.Transient, godi.Singleton, godi.Scoped}
-		s, m := GenSpec(rng, GenOpts{Want: ClsOK, Specials: k%3 == 0, Lifetimes: lifes})
+		s, m := GenSpec(rng, GenOpts{Want: ClsOK, Specials: k%3 == 0 || k%4 == 1, Lifetimes: lifes, Removes: k%4 == 1, MultiAlias: k%4 == 1})
 		if s == nil {
 			continue
 		}
